@@ -3,7 +3,7 @@
 From Coq Require Import ZArith List Bool Lia Permutation.
 From Comet Require Import Base.FBits Base.Parse Base.Sorting.
 From Comet Require Import Model.Distance Model.Limiter Model.Aggregation Model.Fusion Model.KMeans Model.VecIndex.
-From Comet Require Import Model.BM25 Model.BSI Model.Metadata Model.Hybrid Model.Store Proofs.BM25P.
+From Comet Require Import Model.BM25 Model.BSI Model.Metadata Model.Hybrid Model.Store Proofs.BM25P Proofs.SortingP.
 Import ListNotations.
 Open Scope Z_scope.
 
@@ -189,3 +189,55 @@ Theorem failed_load_contributes_nothing rq t g rest acc weak done t1 :
   search_segments rq t1 rest acc weak
     (done ++ [{| sg_id := sg_id g; sg_info := sg_info g; sg_T := sg_T g; sg_files := sg_files g; sg_cached := false |}]).
 Proof. intros Hc Hl. cbn [search_segments]. rewrite Hc, Hl. reflexivity. Qed.
+
+(** ---- reopening: the restored counter dominates every identifier that names any file ---- *)
+Lemma fold_max_ge : forall (l : list Z) a, a <= fold_left Z.max l a /\ forall x, In x l -> x <= fold_left Z.max l a.
+Proof.
+  induction l as [|y t IH]; intros a; cbn [fold_left]; [split; [lia|intros x []]|].
+  destruct (IH (Z.max a y)) as [H1 H2]. split; [lia|].
+  intros x [<-|Hx]; [lia|apply H2, Hx].
+Qed.
+
+Lemma reopen_segs_ids p hv ht hm known listing g :
+  In g (reopen_segs p hv ht hm known listing) -> In (sg_id g) (map fst listing).
+Proof.
+  unfold reopen_segs. intros H. apply in_flat_map in H. destruct H as [[id [[[fh fv] ft] fm]] [Hin Hg]].
+  assert (E : sg_id g = id).
+  { destruct fh; try (destruct Hg; fail);
+      destruct (find (fun x => fst x =? id) known) as [[? g0]|]; destruct Hg as [<-|[]]; reflexivity. }
+  rewrite E. apply in_map_iff. exists (id, (fh, fv, ft, fm)). split; [reflexivity|exact Hin].
+Qed.
+
+Lemma reopen_segs_nodup p hv ht hm known : forall listing,
+  NoDup (map fst listing) -> NoDup (map sg_id (reopen_segs p hv ht hm known listing)).
+Proof.
+  induction listing as [|[id [[[fh fv] ft] fm]] t IH]; intros Hnd; [constructor|].
+  cbn [map fst] in Hnd. inversion Hnd as [|? ? Hni Ht]; subst.
+  unfold reopen_segs. cbn [flat_map]. fold (reopen_segs p hv ht hm known t).
+  assert (Hrest : NoDup (map sg_id (reopen_segs p hv ht hm known t))) by (apply IH, Ht).
+  assert (Hfresh : ~ In id (map sg_id (reopen_segs p hv ht hm known t))).
+  { intros Hc. apply in_map_iff in Hc. destruct Hc as [g [Eg Hg]]. apply Hni. rewrite <- Eg.
+    eapply reopen_segs_ids; exact Hg. }
+  destruct fh; try exact Hrest;
+    destruct (find (fun x => fst x =? id) known) as [[? g0]|]; cbn [app map sg_id]; constructor; assumption.
+Qed.
+
+(** Every identifier that names ANY file of the directory (even a partial segment that is not
+    registered) is at most the restored counter, and the registered segments are pairwise distinct:
+    together with [flush_ids_never_reused] / [compact_ids_never_reused] no identifier present on disk
+    is ever handed out again. *)
+Theorem reopen_ids_ok p hv ht hm limit cthr known listing :
+  NoDup (map fst listing) ->
+  let s := reopen_store p hv ht hm limit cthr known listing in
+  ids_ok (s_segs s) (s_counter s) /\ (forall id, In id (map fst listing) -> id <= s_counter s).
+Proof.
+  intros Hnd s. unfold s, reopen_store, open_store. cbn [s_segs s_counter].
+  destruct (fold_max_ge (map fst listing) 0) as [_ Hmax].
+  split; [split|].
+  - intros g Hg. apply in_map_iff in Hg. destruct Hg as [g0 [<- Hg0]]. cbn [sg_id].
+    apply isort_in in Hg0. apply Hmax. eapply reopen_segs_ids; exact Hg0.
+  - rewrite map_map. cbn [sg_id].
+    eapply Permutation.Permutation_NoDup; [apply Permutation.Permutation_map, isort_perm|].
+    apply reopen_segs_nodup, Hnd.
+  - intros id Hid. apply Hmax, Hid.
+Qed.
